@@ -366,6 +366,61 @@ def r10_no_unsaved_memory(ctx, rule):
         ctx.ok(rule, PG + 'omen_generate_guesses', 'the Markov emission loop keeps no memory of its own between guesses')
 
 
+def r18_restore_gate(ctx, rule):
+    """The interrupted level is finished exactly when a session is being restored and its save file carries the marker.
+
+    run() calls restore_omen under `load_session` and `has_option('guessing_info', 'omen_guess_number')`.  With either test
+    inverted the resumed session skips the remainder of the level (the queue restore starts at the next pre-terminal) - the
+    strings between the quit and the end of the level are never emitted (mutation sweep: `if not load_session:`)."""
+    from ..core import path_conditions
+    qual = CS + 'run'
+    fn = ctx.fn(qual)
+    mod = ctx.repo.modules[CSF]
+    calls = [c for c in calls_in(fn) if call_name(c) == 'self.pcfg.restore_omen']
+    if not calls:
+        ctx.unk(rule, qual, 'no call of restore_omen in run()')
+        return
+    n = 0
+    for c in calls:
+        st = c08._stmt_of(mod, c)
+        conds = path_conditions(mod, st)
+        marker = [(t, p) for t, p in conds if isinstance(t, ast.Call) and isinstance(t.func, ast.Attribute) and t.func.attr == 'has_option'
+                  and 'omen_guess_number' in U(t)]
+        negmarker = [(t, p) for t, p in conds if isinstance(t, ast.UnaryOp) and isinstance(t.op, ast.Not) and 'omen_guess_number' in U(t.operand)]
+        loadc = [(t, p) for t, p in conds if 'load_session' in U(t)]
+        n += 1
+        wrong = None
+        for t, p in loadc:
+            txt = U(t)
+            if txt == 'load_session':
+                if not p:
+                    wrong = 'not load_session'
+            elif txt in ('not load_session', 'load_session == False', 'load_session is False'):
+                if p:
+                    wrong = txt
+            elif txt in ('load_session == True', 'load_session is True'):
+                if not p:
+                    wrong = 'not (%s)' % txt
+            else:
+                ctx.unk(rule, qual, 'restore_omen is called under a test on load_session this rule does not know: ' + txt[:60])
+                return
+        for t, p in marker:
+            if not p:
+                wrong = 'not ' + U(t)[:60]
+        for t, p in negmarker:
+            if p:
+                wrong = U(t)[:60]
+        if wrong:
+            ctx.bad(rule, qual, 'restore_omen is called when %s' % wrong,
+                    'the remainder of the interrupted Markov level is emitted only by restore_omen: it must run when a session is restored '
+                    'and the save file carries omen_guess_number, and only then', None, st, firm=True)
+            return
+        if not marker:
+            ctx.unk(rule, qual, 'restore_omen is not called under a has_option(.., omen_guess_number) test')
+            return
+    ctx.ok(rule, qual, 'restore_omen runs under load_session and the omen_guess_number marker (%d call site)' % n)
+
+
 def _shared_rule(mod, name, **kw):
     def run(ctx, rule):
         import importlib
@@ -388,7 +443,9 @@ def rules(tier):
             # C15-eb: restore_omen warms the memo with the restored (advanced) parse tree
             ('C15.R16', _shared_rule('plumbing', 'who_may')),
             # fix 718673a: a quit inside the last Markov level - the resumed session must not generate the level again after finishing it
-            ('C15.R17', _shared_rule('c08', 'r28_exhausted_session_restores_nothing'))]
+            ('C15.R17', _shared_rule('c08', 'r28_exhausted_session_restores_nothing')),
+            # mutation sweep: `if not load_session:` in front of the OMEN restore
+            ('C15.R18', r18_restore_gate)]
 
 
 META = {
